@@ -58,7 +58,7 @@ func impl(in hv.Val) hv.Val {
 	reqs := hv.L{}
 	end := 0
 	for {
-		req, err := bfe_http.ReadRequest(br, 65536)
+		req, err := bfe_http.ReadRequest(br, 60) // maxUriBytes = model max_uri
 		if err != nil {
 			end = errCode(err)
 			break
@@ -100,10 +100,15 @@ func impl(in hv.Val) hv.Val {
 
 // ---------------- generator ----------------
 
-var methods = []string{"GET", "GET", "POST", "POST", "PUT", "HEAD", "DELETE", "OPTIONS", "get", "M-SEARCH"}
+var methods = []string{"GET", "GET", "POST", "POST", "PUT", "HEAD", "DELETE", "OPTIONS", "get", "M-SEARCH", "CONNECT"}
+var connectTargets = []string{"h.example:443", "h:1", "h", "/p", "h:", ":1", "h.example:443/p", "*", "H:1"}
 var badMethods = []string{"G(T", "", "GE\tT", "P@ST", "GET:"}
 var targets = []string{"/", "/", "/a", "/a/b?x=1&y=2", "*", "/index.html", "/p;v=1", "/x?q=a+b", "/~u/:x",
-	"http://h.example/p", "http://h.example:8080/", "http://a-b.c", "http://h:80/x?y"}
+	"http://h.example/p", "http://h.example:8080/", "http://a-b.c", "http://h:80/x?y", "/a%20b", "//x/y", "/a#f"}
+var oddTargets = []string{ "/a%2", "/a%zz", "/%", "/a?q=%zz", "/a%41?%", "/a#f", "//x/y", "/a\x80", "/a\x7fb", "/a\x01",
+	"abc", "?x", "a:b", "http://h/%41", "/" + "0123456789012345678901234567890123456789012345678901234567",
+	"/" + "01234567890123456789012345678901234567890123456789012345678",
+	"/" + "012345678901234567890123456789012345678901234567890123456789"}
 var versions = []string{"HTTP/1.1", "HTTP/1.1", "HTTP/1.1", "HTTP/1.1", "HTTP/1.0"}
 var oddVersions = []string{"HTTP/+1.1", "HTTP/01.1", "HTTP/1.10", "HTTP/2.0", "HTTP/1", "HTTX/1.1", "HTTP/1.1 ",
 	"HTTP/-0.9", "http/1.1", "HTTP/1.+1", "HTTP/1000001.0", "HTTP/1.1x", "HTTP/.1", "HTTP/1.", "HTTP/0.9", "HTTP/-1.0"}
@@ -111,7 +116,7 @@ var otherNames = []string{"X-A", "x-b", "Accept", "user-agent", "Connection", "C
 var otherValues = []string{"v", "a b", "close", "keep-alive", "text/plain; q=1", "", "a,b", "x:y", "1", "\x80\xff"}
 var clValues = []string{"%d", "%d", "%d", "%d", "+%d", " %d ", "0%d", "%d\t", "-%d", "%d, %d", "\v%d", "%d\r", "", " ", "0x%d",
 	"%d.0", "9223372036854775807", "9223372036854775808", "99999999999999999999", "-0", "+0", "%d %d"}
-var teValues = []string{"chunked", "chunked", "chunked", "Chunked", " chunked ", "CHUNKED", "identity", "identity, chunked",
+var teValues = []string{"chunked", "chunked", "chunked", "Chunked", " chunked ", "CHUNKED", "identity", "chunKed", "chunked\r", "\x0bchunked", "identity, chunked",
 	"chunked, identity", "gzip, chunked", "chunked, gzip", "gzip", "chunked, chunked", "", ",chunked", "chunked,",
 	"identity,gzip", "\tchunked", "chunked\v", "xchunked", "chunked;q=1", "identity, identity", "chunked , identity, gzip"}
 var trailerValues = []string{"X-T", "X-T, X-U", "Content-Length", "x-t, transfer-encoding", "trailer", "", " ", "X-T,"}
@@ -135,7 +140,7 @@ func eol(r *hv.Rng) string {
 // colon variants: the boundary cases of field-name recognition
 func headerLine(r *hv.Rng, name, value string, odd *[]string) string {
 	sep := ": "
-	switch r.Intn(40) {
+	switch r.Intn(120) {
 	case 0:
 		sep = " : "
 		*odd = append(*odd, "wscolon")
@@ -250,7 +255,15 @@ func genRequest(r *hv.Rng, odd *[]string) string {
 		v = r.Pick(oddVersions)
 		*odd = append(*odd, "version")
 	}
-	sb.WriteString(m + " " + r.Pick(targets) + " " + v + eol(r))
+	tg := r.Pick(targets)
+	if r.Chance(1, 8) {
+		tg = r.Pick(oddTargets)
+		*odd = append(*odd, "target")
+	}
+	if m == "CONNECT" && r.Chance(3, 4) {
+		tg = r.Pick(connectTargets)
+	}
+	sb.WriteString(m + " " + tg + " " + v + eol(r))
 	if r.Chance(1, 50) {
 		sb.WriteString(" ") // whitespace before the first header field
 		*odd = append(*odd, "leadws")
@@ -273,7 +286,10 @@ func genRequest(r *hv.Rng, odd *[]string) string {
 	}
 	body := alnum(r, bodyLen)
 	clLine := func() string {
-		f := r.Pick(clValues)
+		f := "%d"
+		if r.Chance(1, 3) {
+			f = r.Pick(clValues)
+		}
 		if !strings.HasPrefix(f, "%d") || f != "%d" {
 			*odd = append(*odd, "cl")
 		}
@@ -296,7 +312,10 @@ func genRequest(r *hv.Rng, odd *[]string) string {
 		return headerLine(r, r.Pick([]string{"Content-Length", "content-length", "Content-length"}), val, odd)
 	}
 	teLine := func() string {
-		v := r.Pick(teValues)
+		v := r.Pick(teValues[:6])
+		if r.Chance(1, 4) {
+			v = r.Pick(teValues)
+		}
 		if v != "chunked" {
 			*odd = append(*odd, "te")
 		}
@@ -312,7 +331,16 @@ func genRequest(r *hv.Rng, odd *[]string) string {
 		lines = append(lines, clLine())
 		if r.Chance(1, 6) { // duplicate Content-Length, same or different
 			*odd = append(*odd, "cldup")
-			if r.Bool() {
+			if r.Chance(1, 3) { // three fields: the odd one out at any position
+				k := r.Intn(3)
+				for j := 0; j < 2; j++ {
+					v := bodyLen
+					if j+1 == k {
+						v = bodyLen + r.Range(1, 9)
+					}
+					lines = append(lines, headerLine(r, "Content-Length", fmt.Sprintf("%d", v), odd))
+				}
+			} else if r.Bool() {
 				lines = append(lines, headerLine(r, "Content-Length", fmt.Sprintf("%d", bodyLen), odd))
 			} else {
 				lines = append(lines, headerLine(r, "Content-Length", fmt.Sprintf("%d", bodyLen+r.Range(1, 30)), odd))
@@ -395,7 +423,24 @@ func genRequest(r *hv.Rng, odd *[]string) string {
 	return sb.String()
 }
 
+// one header line longer than the 4096-byte bufio buffer (ReadLine delivers it in pieces), CRLF at varying
+// offsets around the buffer boundary
+func genLong(r *hv.Rng) (string, hv.Val) {
+	head := "POST /l HTTP/1.1\r\nHost: a\r\n"
+	n := 4096 - len(head) - len("X-Long: ") + r.Range(-4, 4)
+	if r.Chance(1, 3) {
+		n += r.Range(0, 300)
+	}
+	body := alnum(r, r.Intn(6))
+	s := head + "X-Long: " + strings.Repeat("v", n) + "\r\n" + fmt.Sprintf("Content-Length: %d\r\n\r\n", len(body)) + body +
+		"GET /next HTTP/1.1\r\n\r\n"
+	return "longline", hv.S(s)
+}
+
 func gen(r *hv.Rng, i int, tier string) (string, hv.Val) {
+	if i%100 == 99 {
+		return genLong(r)
+	}
 	var odd []string
 	n := r.Range(1, 4)
 	if r.Chance(1, 2) {
